@@ -1364,6 +1364,11 @@ func buildGeoms(r *rand.Rand) []namedGeom {
 	gcm.MustPush(geom.NewPointFlat(geom.XYZ, []float64{1, 2, 3}), geom.NewLineStringFlat(geom.XYM, rnd(4, 3, 30)),
 		geom.NewMultiPointFlat(geom.XY, rnd(3, 2, 30)))
 	add("gc-mixed-z-m", gcm)
+	// a collection with an SRID whose members carry the same SRID, another one, and none
+	gcs := geom.NewGeometryCollection().SetSRID(4326)
+	gcs.MustPush(geom.NewPointFlat(geom.XY, []float64{8, 47}).SetSRID(4326), geom.NewLineStringFlat(geom.XY, rnd(4, 2, 30)).SetSRID(4326),
+		geom.NewPolygonFlat(geom.XY, append([]float64{}, ring...), []int{len(ring)}).SetSRID(3857), geom.NewPointFlat(geom.XY, []float64{1, 1}))
+	add("gc-srid-members", gcs)
 	// legal but degenerate: rings that are not closed, each followed by further rings / members in the same flat array
 	// (anything appended "to" such a ring lands in its neighbour)
 	open := []float64{0, 0, 10, 0, 10, 10, 0, 10}
